@@ -106,7 +106,9 @@ func marshalCfgs() []marshalCfg {
 	}
 }
 
-func hasClass(cls, leafKind string) bool { return strings.Contains(cls, "("+leafKind+")") || cls == leafKind }
+func hasClass(cls, leafKind string) bool {
+	return strings.Contains(cls, "("+leafKind+")") || cls == leafKind
+}
 
 // ---------------- C05 ----------------
 
